@@ -194,6 +194,9 @@ func faultsCmd(args []string) error {
 	events := 0
 	perKind := map[string]int{}
 	emitEv := func(ev map[string]any) {
+		if _, ok := ev["baseok"]; !ok {
+			ev["baseok"] = true
+		}
 		mu.Lock()
 		events++
 		perKind[fmt.Sprint(ev["kind"], "/", ev["entry"])]++
@@ -225,7 +228,7 @@ func faultsCmd(args []string) error {
 	for _, in := range corpus.All(seed) {
 		in := in
 		base := corpus.Run(in.Entry, bytes.NewReader(in.Data))
-		if base.Err != "" || base.Panic != "" {
+		if (base.Err != "" && !corpus.Rejected[in.Name]) || base.Panic != "" {
 			close(jobs)
 			return fmt.Errorf("corpus input %s not accepted: %s%s", in.Name, base.Err, base.Panic)
 		}
@@ -240,7 +243,10 @@ func faultsCmd(args []string) error {
 					fr := &faultReader{data: in.Data, at: at, chunk: 0, mode: mode}
 					res := corpus.Run(in.Entry, fr)
 					emitEv(map[string]any{"kind": "readfault", "mode": mode, "entry": in.Entry, "input": in.Name, "at": at, "delivered": fr.delivered,
-						"calls": fr.calls, "outcome": outcome(res), "equal": res == base, "complete": false, "detail": res.Err + res.Panic})
+						"calls": fr.calls, "outcome": outcome(res), "equal": res == base, "complete": false, "detail": res.Err + res.Panic, "baseok": base.Err == ""})
+				}
+				if corpus.Rejected[in.Name] {
+					return // truncation is judged against the complete result: there is none
 				}
 				tr := corpus.Run(in.Entry, bytes.NewReader(in.Data[:at]))
 				emitEv(map[string]any{"kind": "truncate", "entry": in.Entry, "input": in.Name, "at": at, "delivered": true,
